@@ -54,7 +54,7 @@ def main():
         if pid in BIG:
             extra.append("large-scale cases (rings with adopted tails up to 8k quick / 120k thorough objects, payload with and without drop glue) under the same oracle")
         if pid in SWEEP:
-            extra.append("thorough: exhaustive small-scope sweep of 1.95M histories over all adoption multigraphs on <= 3 objects")
+            extra.append("small-scope sweep over all adoption multigraphs on <= 3 objects x kept roots x Weaks x drop orders (1.95M histories; quick: every 48th, thorough: all, exhaustive)")
         if pid in FUZZ:
             extra.append("thorough: coverage-guided libFuzzer+ASan campaign over the same interpreter and judge, artifacts re-judged by the fork executor")
         if extra:
